@@ -200,6 +200,34 @@ def min_variance(S, n, negative):
         S.prove_eq(np.array([sd[i] * sd[i]], dtype=object), np.array([var[i]], dtype=object), "stddev^2 = variance [%d]" % i)
 
 
+def floors_per_dtype(S):
+    """the variance / fixed-noise floors are per dtype: inside `with min_variance(double_value=...)` (no float_value) a
+       float32 distribution is still clamped at the float32 floor, a float64 one at the new double floor"""
+    f32 = float(gpytorch.settings.min_variance.value(torch.float32))  # the floors in force BEFORE the block
+    n32 = float(gpytorch.settings.min_fixed_noise.value(torch.float32))
+    with gpytorch.settings.min_variance(double_value=1e-10), gpytorch.settings.min_fixed_noise(double_value=1e-9):
+        for dt, floor, nfloor in ((torch.float32, f32, n32), (torch.float64, 1e-10, 1e-9)):
+            mean = torch.zeros(2, dtype=dt)
+            C = torch.tensor([[-0.3, 0.0], [0.0, 0.7]], dtype=dt)
+            noise = torch.tensor([1e-12, 0.05], dtype=dt)
+            with S.mode():
+                from linear_operator.operators import DenseLinearOperator
+                Cs = S.sym_tensor(C, "c%s" % str(dt)[-2:])
+                NS = S.sym_tensor(noise, "n%s" % str(dt)[-2:])
+                var = as_sym_arr(SH.get(MultivariateNormal(mean, DenseLinearOperator(C)).variance))
+                got = as_sym_arr(SH.get(gpytorch.likelihoods.FixedNoiseGaussianLikelihood(noise).noise))
+            for i in range(2):
+                S.prove_ge(var[i], Sym.const(floor), "%s variance[%d] >= its dtype's min_variance (%g)" % (dt, i, floor))
+                S.prove_ge(got[i], Sym.const(nfloor), "%s fixed noise[%d] >= its dtype's min_fixed_noise (%g)" % (dt, i, nfloor))
+
+
+def fantasy_covariance(S, lik, cfg):
+    """the covariance a fantasy model hands out is the conditional covariance on train + fantasy data (non-uniform fixed noise
+       routed to the right points), see C04.fantasy"""
+    from .C04 import fantasy
+    fantasy(S, 2, 1, 2, lik, cfg, "plain", 1)
+
+
 def fixed_noise(S, n):
     mn = float(gpytorch.settings.min_fixed_noise.value(torch.float64))
     noise = torch.tensor([0.3, 1e-9, 0.05][:n])
@@ -236,4 +264,7 @@ def scenarios(tier, seed):
     add("min_variance", n=3, negative=False)
     add("min_variance", n=3, negative=True)
     add("fixed_noise", n=3)
+    add("floors_per_dtype")
+    add("fantasy_covariance", lik="fixed", cfg={"fpv": False, "detach": True})
+    add("fantasy_covariance", lik="fixed_learn", cfg={"fpv": True, "detach": True})
     return out
